@@ -194,6 +194,7 @@ def make_case(rng: random.Random) -> Dict[str, Any]:
         p_inconsistent_fiat=1.0,
         p_in_fiat_fee=0.5,
         p_out_crypto_fee=0.6,
+        p_rounded_out_total=0.5,
         max_events=rng.choice((6, 12, 30)),
         min_events=3,
         n_exchanges=3,
